@@ -8,6 +8,8 @@ CONSTANTS
   FkB58 = 0
   FkFmt = 0
   EnSig = 100
+  OffDrivers = {}
+  SigOff = FALSE
   MaxLen = 4
   Mode = "all"
   CacheKey = "addr+enabled"
